@@ -1327,6 +1327,41 @@ theorem num_f64_stddev (keep : Bool) (l : List F64) :
     have hzz : r.varianceF.isZero = true := (F64.isZero_iff _).mpr ((F64.toRat_eq_zero_iff _).mp h00)
     rw [hz hzz]; exact vf
 
+/-- END TO END: `StdDev()` against the EXACT sample variance `σ²` of the sample values.  In the class of
+`num_f64_variance_error` (finite samples of magnitude ≤ 2^e, e ≤ 480, between 2 and 2^53 of them) with a positive
+`Variance()`: `StdDev()` is finite and is the correct rounding of a rational `t`, `|StdDev() − t| ≤ t·u + η`, with
+
+    (t − 2^-603)² − T  ≤  σ²  ≤  (t + 2^-603)² + T,        T = `varianceErrBound 2^e n` (the tolerance of `Variance()`).
+
+(Square roots are irrational, so the tolerance is stated on the squares.)  With `num_f64_mean_error` this makes every
+clause of "count, mean, sample standard deviation, min and max equal those of the full sample list within floating-point
+tolerance" a theorem with an explicit tolerance; count, min and max are exact (`num_f64_count`, `num_f64_minmax`). -/
+theorem num_f64_stddev_error (keep : Bool) (e : Nat) (he : e ≤ 480) (l : List F64) (h2 : 2 ≤ l.length)
+    (hn : l.length ≤ 9007199254740992)
+    (hl : ∀ x ∈ l, x.isFinite = true ∧ -((2 ^ e : Nat) : Rat) ≤ x.toRat ∧ x.toRat ≤ ((2 ^ e : Nat) : Rat))
+    (hpos : 0 < (runFv keep l).varianceF.toRat) :
+    let r := runFv keep l
+    let σ2 := sampleVariance (l.map F64.toRat)
+    let T := varianceErrBound ((2 ^ e : Nat) : Rat) l.length
+    r.stdDev.isFinite = true ∧
+    ∃ t : Rat, F64.sqrtEps ≤ t ∧ r.stdDev = F64.ofRatS false t ∧
+      r.stdDev.toRat - t ≤ t * uF + F64.etaF ∧ t - r.stdDev.toRat ≤ t * uF + F64.etaF ∧
+      (t - F64.sqrtEps) * (t - F64.sqrtEps) - T ≤ σ2 ∧ σ2 ≤ (t + F64.sqrtEps) * (t + F64.sqrtEps) + T := by
+  intro r σ2 T
+  have hne : l ≠ [] := by intro h; rw [h] at h2; simp at h2
+  obtain ⟨vf, v1, v2⟩ := (num_f64_variance_error keep e he l hne hn hl).2 h2
+  obtain ⟨_, _, hs, _, _⟩ := num_f64_stddev keep l
+  obtain ⟨sf, t, t0, t1, b1, b2, e1, e2⟩ := hs vf hpos
+  refine ⟨sf, t, t0, t1, e1, e2, ?_, ?_⟩
+  · show _ - varianceErrBound _ _ ≤ sampleVariance (l.map F64.toRat)
+    unfold varianceErrBound m2ErrBound unitRoundoff halfMinSub
+    unfold uF F64.etaF at v1
+    grind
+  · show sampleVariance (l.map F64.toRat) ≤ _ + varianceErrBound _ _
+    unfold varianceErrBound m2ErrBound unitRoundoff halfMinSub
+    unfold uF F64.etaF at v2
+    grind
+
 /-! ### non-vacuity of the float theorems -/
 
 /-- "1.5", "x", "-2", "1e999" (range error), "0x1p-1", "nan". -/
@@ -1371,6 +1406,9 @@ example : IsSortedF false [F64.nan, F64.zero true, F64.zero false, F64.ofInt 1] 
 example : (runFv false [F64.inf false, F64.inf false]).min = F64.inf false := by decide +kernel
 example : (runFv false [F64.neg maxF64, maxF64]).mean = F64.inf false := by decide +kernel
 example : inErrClass 0 [F64.ofRat (1/10), F64.ofRat (2/10), F64.ofRat (3/10)] = true := by decide +kernel
+/-- hypotheses of `num_f64_stddev_error` on 1, 3, …, 15 (e = 4). -/
+example : (∀ x ∈ exInts8, x.isFinite = true ∧ -((2 ^ 4 : Nat) : Rat) ≤ x.toRat ∧ x.toRat ≤ ((2 ^ 4 : Nat) : Rat)) ∧
+    0 < (runFv false exInts8).varianceF.toRat := by decide +kernel
 /-- `num_f64_stddev`: 1, 3, … , 15 have the positive finite variance 24 (√24 is irrational: the bracket is strict). -/
 example : (runFv true exInts8).varianceF.isFinite = true ∧ 0 < (runFv true exInts8).varianceF.toRat := by decide +kernel
 /-- hypotheses of `num_f64_variance_error` (e = 0) on 0.1, 0.2, 0.3: `M2` is rounded (it is not the exact value). -/
